@@ -256,12 +256,12 @@ def _kp_source_absorbing(case, msg):
 KNOWN_PREDICATES = {"source_state_is_absorbing": _kp_source_absorbing}
 
 PROPS = [
-    Prop("gridworld", lambda tier: gridworld_cases(tier), prop_gridworld, quick=1200, thorough=20000,
+    Prop("gridworld", lambda tier: gridworld_cases(tier), prop_gridworld, quick=1200, thorough=60000,
          doc="GridWorld: generic well-formedness + one-step physics of every cell x action vs an own parser"),
-    Prop("windy", lambda tier: windy_cases(tier), prop_windy, quick=600, thorough=10000,
+    Prop("windy", lambda tier: windy_cases(tier), prop_windy, quick=600, thorough=30000,
          doc="WindyGridWorld: generic well-formedness, states inside the grid and outside walls"),
-    Prop("heavenorhell", lambda tier: hoh_cases(tier), prop_hoh, quick=300, thorough=5000,
+    Prop("heavenorhell", lambda tier: hoh_cases(tier), prop_hoh, quick=300, thorough=15000,
          doc="HeavenOrHell: generic POMDP well-formedness incl. observation distributions"),
-    Prop("small", lambda tier: small_cases(tier), prop_small, quick=80, thorough=800,
+    Prop("small", lambda tier: small_cases(tier), prop_small, quick=80, thorough=2400,
          doc="Tiger (coherence in [0,1]), LoadUnload (1..9 states), CliffWalking"),
 ]
